@@ -125,6 +125,7 @@ func cmdCheck(args []string) {
 		cfgs = p.Thorough
 	}
 	run.configs = cfgs
+	extraLoadTags = p.Tags
 	var all []*Obligation
 	for _, cn := range cfgs {
 		cfg := allConfigs[cn]
@@ -271,6 +272,9 @@ func (run *checkRun) generate(en *Engine, p *PropSpec) []*Obligation {
 			}
 			fn := en.lookupFunc(path, k)
 			if fn == nil {
+				if fc.Hook && len(p.Tags) == 0 {
+					continue // the hook function is only compiled for the property that needs it
+				}
 				run.undecided = append(run.undecided, fmt.Sprintf("contract %s.%s names a function that does not exist under configuration %s", ci.Pkg, k, en.cfgName))
 				continue
 			}
